@@ -255,12 +255,56 @@ def check_tree(ctx, tree, explicit, replay):
         sig = "C05:rename-order" if has_rename(tree) else "C05:precedence"
         ctx.violation(sig, f"instance {key[0]} parameter {key[1]} uses {g}, the rules give {v} ({len(bad)} of {len(exp)} values wrong)", replay)
         return False
+    if not check_descend(ctx, sol, explicit, got, replay):
+        return False
     # defaults as a dict
     dd = visible_defaults(tree)
     real = {k: v for k, v in sol.default_params.items() if k != "wl"}
     if set(real) != set(dd) or any(abs(real[k] - dd[k]) > 1e-12 for k in dd):
         ctx.violation("C05:default-params", f"Solver.default_params {sorted(real.items())} differs from the rules {sorted(dd.items())}", replay)
         return False
+    return True
+
+
+def leaf_paths(sol, prefix=()):
+    """[(probe model, [(table as stored [(new, old)], defaults of the placed object), ...] from the top down)] read off the
+    *real* objects: every placement's own rename table and the placed solver's / model's own default_params"""
+    out = []
+    for st in sol.structures:
+        child = st.solver if getattr(st, "solver", None) is not None else st.model
+        level = ([(n, o) for n, o in st.param_mapping.items()], dict(child.default_params))
+        if getattr(st, "solver", None) is not None:
+            out += leaf_paths(child, prefix + (level,))
+        else:
+            out.append((child, list(prefix + (level,))))
+    return out
+
+
+def check_descend(ctx, sol, explicit, got, replay):
+    """correspondence of the Lean `descend` (Model/Params.lean, the object of C05_precedence_any_depth) with the running
+    hierarchy: the dictionary the model predicts at the bottom of every path of placements vs the phases the probe there shows"""
+    def enc(v):
+        return "None" if v is None else repr(float(v))
+    top_defaults = [[k, enc(v)] for k, v in sol.default_params.items()]
+    args = [[k, enc(v)] for k, v in explicit.items()]
+    for probe, path in leaf_paths(sol):
+        q = {"op": "descend", "defaults": top_defaults, "args": args,
+             "levels": [{"table": [[n, o] for n, o in t], "defaults": [[k, enc(v)] for k, v in cd.items()]} for t, cd in path]}
+        ans = ctx.driver.ask(q)
+        ctx.tag(f"descend-depth:{len(path)}")
+        if "dict" not in ans:
+            ctx.disagreement("C05.model.descend", f"driver answered {ans}", replay)
+            return False
+        d = {k: float(v) for k, v in ans["dict"] if v != "None"}
+        for nm in probe.names:
+            key = [k for k in got if k[1] == nm and any(p.name.startswith(k[0] + "a") for p in probe.pin_dic)]
+            if not key or nm not in d:
+                ctx.disagreement("C05.model.descend", f"no value for parameter {nm} at depth {len(path)}", replay)
+                return False
+            g, w = got[key[0]], ((d[nm] + 1) % 2) - 1
+            if abs(((g - w + 1) % 2) - 1) > 1e-9:
+                ctx.disagreement("C05.model.descend", f"probe {key[0][0]} parameter {nm}: implementation uses {g}, Lean descend gives {d[nm]} (depth {len(path)})", replay)
+                return False
     return True
 
 
